@@ -10,6 +10,7 @@ import (
 	"crypto"
 	"crypto/sha256"
 	"fmt"
+	"io"
 	"os"
 
 	"github.com/foxboron/go-uefi/authenticode"
@@ -56,13 +57,16 @@ func libDigest(b []byte) ([]byte, string) {
 		// Parse takes an io.ReaderAt: where the caller's own read position stands (it may have sniffed the "MZ" magic, or read the
 		// whole file once) does not matter
 		rd := bytes.NewReader(b)
-		switch libDigestCalls % 3 {
+		var src io.ReaderAt = rd
+		switch libDigestCalls % 4 {
 		case 1:
 			rd.Seek(2, 0)
 		case 2:
 			rd.Seek(int64(len(b)), 0)
+		case 3:
+			src = eofEagerReaderAt{b} // reports io.EOF together with the last bytes of the file (the io.ReaderAt contract allows it)
 		}
-		p, err := authenticode.Parse(rd)
+		p, err := authenticode.Parse(src)
 		if err != nil {
 			return err
 		}
@@ -83,6 +87,20 @@ func libDigest(b []byte) ([]byte, string) {
 		return nil, "error: " + err.Error()
 	}
 	return d, ""
+}
+
+// eofEagerReaderAt returns io.EOF in the same call that delivers the last bytes of the data
+type eofEagerReaderAt struct{ b []byte }
+
+func (e eofEagerReaderAt) ReadAt(p []byte, off int64) (int, error) {
+	if off < 0 || off > int64(len(e.b)) {
+		return 0, io.EOF
+	}
+	n := copy(p, e.b[off:])
+	if int(off)+n == len(e.b) {
+		return n, io.EOF
+	}
+	return n, nil
 }
 
 func runPe(sc M) {
